@@ -346,6 +346,46 @@ def lookup (fns : List FnSpec) (isBase implI : Bool) (beh : Behav) (fnc : Arshal
   let fncs := collect isBase implI fns
   if fncs.isEmpty then fnc else fun ctx => callFns beh ctx fnc fncs
 
+/-! ### The caches (arshal.go:533-547 `lookupArshalerCache`, arshal_funcs.go:118-123,139,155 `fncCache`)
+
+Both are memo tables keyed by `reflect.Type`: on a hit the stored value is returned, on a miss the value is computed
+from the type alone (for `fncCache`: from the type and the immutable `fncVals` list), stored, and returned
+(`LoadOrStore`: a concurrent duplicate is dropped in favour of the first one stored). -/
+
+/-- A memo table: `none` = no entry. -/
+abbrev Memo (κ α : Type) := κ → Option α
+
+def Memo.empty {κ α : Type} : Memo κ α := fun _ => none
+
+/-- `cache.Load(t)`; on a miss compute, `LoadOrStore`, return what is stored. -/
+def memoLookup {κ α : Type} [DecidableEq κ] (compute : κ → α) (cache : Memo κ α) (t : κ) : α × Memo κ α :=
+  match cache t with
+  | some v => (v, cache)
+  | none => (compute t, fun t' => if t' = t then some (compute t) else cache t')
+
+/-- A sequence of lookups (whatever order the types are met in: top level first, nested first, …). -/
+def memoRun {κ α : Type} [DecidableEq κ] (compute : κ → α) : Memo κ α → List κ → List α × Memo κ α
+  | cache, [] => ([], cache)
+  | cache, t :: ts =>
+    let r := memoLookup compute cache t
+    let rs := memoRun compute r.2 ts
+    (r.1 :: rs.1, rs.2)
+
+/-- Legacy method semantics (`CallMethodsWithLegacySemantics`): the methods that are still considered.
+A pointer-receiver method is ignored for a value that is addressable only through a forced copy
+(`needAddr && va.forcedAddr`); MarshalJSONTo/MarshalJSON (UnmarshalJSONFrom/UnmarshalJSON) are ignored at an
+object-name position (`Tokens.Last.NeedObjectName()`); the text methods are not. -/
+def Recv.legacyVisible (r : Recv) (forcedAddr hideAtName : Bool) : Recv :=
+  if (r == .pointer && forcedAddr) || hideAtName then .absent else r
+
+def MethodSet.legacy (ms : MethodSet) (forcedAddr needName : Bool) : MethodSet :=
+  ⟨ms.to.legacyVisible forcedAddr needName, ms.js.legacyVisible forcedAddr needName,
+   ms.ap.legacyVisible forcedAddr false, ms.tx.legacyVisible forcedAddr false⟩
+
+/-- The unmarshal wrappers ignore `needAddr`; only the object-name rule applies, and not to UnmarshalText. -/
+def UMethodSet.legacy (ms : UMethodSet) (needName : Bool) : UMethodSet :=
+  ⟨ms.frm.legacyVisible false needName, ms.uj.legacyVisible false needName, ms.utx⟩
+
 /-! ### Levels: how the value of type `T` is reached -/
 
 inductive LKind where
